@@ -251,6 +251,36 @@ def classify(ix, d1, d2):
     return 'unique-violated'
 
 
+def update_specs(op):
+    k = op[0]
+    if k in ('update_one', 'update_many', 'find_one_and_update'):
+        return [op[2]]
+    if k == 'bulk_write':
+        return [q[2] for q in op[1] if q[0] in ('UpdateOne', 'UpdateMany')]
+    return []
+
+
+def classify_unreadable(st, prev_docs):
+    """which known class (if any) explains a collection that find({}) can no longer read: a
+    failed update whose path reaches at least two levels into an `_id` that is an embedded
+    document holding another document there (the store key shares that inner document with the
+    stored one; the update changes it in place before it is refused)"""
+    if st.out[0] == 'err':
+        for spec in update_specs(st.op):
+            if not isinstance(spec, dict):
+                continue
+            for name, body in spec.items():
+                if not (str(name).startswith('$') and isinstance(body, dict)):
+                    continue
+                for path in body:
+                    parts = str(path).split('.')
+                    if len(parts) >= 3 and parts[0] == '_id' and any(
+                            isinstance(d, dict) and isinstance(d.get('_id'), dict) and
+                            isinstance(d['_id'].get(parts[1]), dict) for d in prev_docs):
+                        return 'nested-id-failed-update'
+    return 'observation'
+
+
 def has_dollar_key(v):
     """an embedded document with a $-prefixed key: the uniqueness look-up reads it as a query
     operator instead of as data"""
@@ -296,6 +326,10 @@ def oracle(history, steps):
     for i, st in enumerate(steps):
         docs = st.obs.get('docs') if isinstance(st.obs, dict) else None
         if not isinstance(docs, list):
+            # a collection that can no longer be read is in no state the rule could hold in
+            prev = steps[i - 1].obs.get('docs') if i else []
+            fails.append((i, classify_unreadable(st, prev if isinstance(prev, list) else []),
+                          'find({}) raised %r after %r -> %r' % (docs, st.op, st.out)))
             break
         info = (st.extra or {}).get('probe') or {}
         listed = list(st.obs.get('indexes') or [])
